@@ -26,7 +26,7 @@ ANCHORS = ['numdifftools.finite_difference:LogRule._fd_matrix', 'numdifftools.fi
            'numdifftools.finite_difference:LogRule._flip_fd_rule', 'numdifftools.finite_difference:LogRule.richardson_step',
            'numdifftools.finite_difference:LogRule.method_order', 'numdifftools.finite_difference:LogRule._apply',
            'numdifftools.core:Derivative.set_richardson_rule']
-MIN_COUNTERS = dict(quick={'moments_asserted': 10000, 'end_to_end_asserted': 30000, 'pairing_asserted': 1500, 'multivariate_pairing_asserted': 800, 'pairing_after_switch_asserted': 1200,
+MIN_COUNTERS = dict(quick={'moments_asserted': 10000, 'end_to_end_asserted': 30000, 'pairing_asserted': 1500, 'multivariate_pairing_asserted': 800, 'hessian_pairing_asserted': 30, 'pairing_after_switch_asserted': 1200,
                            'leading_power_asserted': 1500, 'parity_class:0': 100, 'parity_class:1': 50,
                            'parity_class:2': 50, 'parity_class:3': 20, 'parity_class:4': 20, 'parity_class:5': 20,
                            'parity_class:6': 20, 'flipped_rules': 100},
@@ -339,6 +339,29 @@ def run_case(case, ctx):
         except Exception as exc:
             _RULE_RATIOS = None
             ctx.count('multivariate_pairing_call_raised:%s' % type(exc).__name__)
+    # the Hessian class has its own rule class and difference quotients (error powers h^2, h^4, ... for the central and for both
+    # complex-step formulas): the Richardson stage it builds starts at the leading power its quotient really has, measured here
+    # from two single-step evaluations (h and h/2) of exp(x + 2y)
+    if n == 2 and method in ('central', 'complex') and order == 2:
+        try:
+            fh = lambda t: np.exp(t[0] + 2.0 * t[1])
+            xh = np.array([0.3, -0.2])
+            Hx = math.exp(xh[0] + 2.0 * xh[1]) * np.array([[1.0, 2.0], [2.0, 4.0]])
+            for hm in ([method] + (['central2', 'multicomplex'] if method == 'central' else [])):
+                errs = []
+                for h_ in (0.1, 0.05):
+                    Hh = nd.Hessian(fh, method=hm, step=nd.MinStepGenerator(base_step=h_, num_steps=1, step_nom=1.0))(xh)
+                    errs.append(float(np.max(np.abs(np.asarray(Hh) - Hx))))
+                slope = math.log2(errs[0] / errs[1])
+                ho = nd.Hessian(fh, method=hm, step=nd.MinStepGenerator(base_step=0.1, step_ratio=ratio, num_steps=4, step_nom=1.0))
+                ho(xh)
+                ctx.count('hessian_pairing_asserted')
+                if abs(slope - int(ho.richardson.order)) > 0.5 or int(ho.richardson.step) != 2 or abs(float(ho.richardson.step_ratio) - r) > 0:
+                    ctx.reject('richardson_not_matched_to_surviving_powers', observed=[int(ho.richardson.order), int(ho.richardson.step)],
+                               expected=[round(slope, 2), 2], detail=dict(cls='Hessian', method=hm, measured_leading_power=slope))
+                    return
+        except Exception as exc:
+            ctx.count('hessian_pairing_raised:%s' % type(exc).__name__)
     # the same configuration reached through the setters of an object that has already been used with another
     # method (and possibly another order): the Richardson stage must be the one paired with the rule it now applies
     prng = np.random.default_rng(int(case.get('seed', 0)) + 17 * n + order)
